@@ -91,9 +91,13 @@ Section Main.
               && forallb (fun e => forallb (rch_none u true 95 hs_second) (snd e)) (sc_patterns cfg)
     end.
 
-  Definition chk_sound : bool :=
+  (* what validity of the result needs, whatever the handlers do *)
+  Definition chk_base : bool :=
     chk_enc_out cfg && chk_affixes && existsb good_clsplus (rules_of cfg ty_all)
-    && (rules_digit_guard || pats_digit_guard) && chk_handler.
+    && (rules_digit_guard || pats_digit_guard).
+
+  (* handler outputs: either strop re-verifies what it returns, or the two computed facts about handler-shaped tokens hold *)
+  Definition chk_sound : bool := chk_base && (sc_reverify cfg || chk_handler).
 
   (* ---------------- the dry-run checks ---------------- *)
   Definition pat_hit (tyl t : str) : bool :=
@@ -131,16 +135,16 @@ Section Main.
   Hypothesis Hchk : chk_sound = true.
 
   Lemma Hc_all : chk_enc_out cfg = true /\ chk_affixes = true /\ existsb good_clsplus (rules_of cfg ty_all) = true
-                 /\ rules_digit_guard || pats_digit_guard = true /\ chk_handler = true.
+                 /\ rules_digit_guard || pats_digit_guard = true /\ sc_reverify cfg || chk_handler = true.
   Proof.
-    pose proof Hchk as H. unfold chk_sound in H. apply andb_prop in H as [H H5]. apply andb_prop in H as [H H4].
+    pose proof Hchk as H. unfold chk_sound, chk_base in H. apply andb_prop in H as [H H5]. apply andb_prop in H as [H H4].
     apply andb_prop in H as [H H3]. apply andb_prop in H as [H1 H2]. auto.
   Qed.
   Lemma Hc_out : chk_enc_out cfg = true. Proof. apply Hc_all. Qed.
   Lemma Hc_aff : chk_affixes = true. Proof. apply Hc_all. Qed.
   Lemma Hc_alpha : existsb good_clsplus (rules_of cfg ty_all) = true. Proof. apply Hc_all. Qed.
   Lemma Hc_digit : rules_digit_guard || pats_digit_guard = true. Proof. apply Hc_all. Qed.
-  Lemma Hc_handler : chk_handler = true. Proof. apply Hc_all. Qed.
+  Lemma Hc_handler : sc_reverify cfg || chk_handler = true. Proof. apply Hc_all. Qed.
 
   (* invariant of the token from the end of the encoding stage on *)
   Definition Inv (x : str) : Prop :=
@@ -191,11 +195,11 @@ Section Main.
   (* ---------------- facts about handler-shaped tokens ---------------- *)
   Definition some_handler : Prop := sc_strop_handler cfg <> HNone \/ sc_enc_handler cfg <> HNone.
 
-  Lemma handler_facts : some_handler ->
+  Lemma handler_facts : chk_handler = true -> some_handler ->
     forallb (fun w => negb (hshape w)) R = true
     /\ forallb (fun e => forallb (rch_none u true 95 hs_second) (snd e)) (sc_patterns cfg) = true.
   Proof.
-    intros Hs. pose proof Hc_handler as H. unfold chk_handler in H. unfold some_handler in Hs.
+    intros H Hs. unfold chk_handler in H. unfold some_handler in Hs.
     destruct (sc_strop_handler cfg), (sc_enc_handler cfg); try (apply andb_prop in H; exact H).
     destruct Hs; congruence.
   Qed.
@@ -211,18 +215,18 @@ Section Main.
     apply andb_prop in Hi as [_ Hi]. apply andb_prop in Hi as [Hi _]. exact Hi.
   Qed.
 
-  Lemma hshape_not_reserved t : some_handler -> hshape t = true -> str_in t R = false.
+  Lemma hshape_not_reserved t : chk_handler = true -> some_handler -> hshape t = true -> str_in t R = false.
   Proof.
-    intros Hs Ht. destruct (str_in t R) eqn:E; [|reflexivity]. apply str_in_spec in E.
-    destruct (handler_facts Hs) as [H _]. rewrite forallb_forall in H. specialize (H t E).
+    intros Hch Hs Ht. destruct (str_in t R) eqn:E; [|reflexivity]. apply str_in_spec in E.
+    destruct (handler_facts Hch Hs) as [H _]. rewrite forallb_forall in H. specialize (H t E).
     rewrite Ht in H; discriminate.
   Qed.
 
-  Lemma hshape_no_pattern t ty : some_handler -> hshape t = true -> all_ident t = true ->
+  Lemma hshape_no_pattern t ty : chk_handler = true -> some_handler -> hshape t = true -> all_ident t = true ->
     matches_pats u t (pats_of cfg ty) = false.
   Proof.
-    intros Hs Ht Hi. unfold pats_of. destruct (lookup (sc_patterns cfg) ty) as [ps|] eqn:L; [|reflexivity].
-    apply lookup_in in L as (k' & Hin). destruct (handler_facts Hs) as [_ H]. rewrite forallb_forall in H.
+    intros Hch Hs Ht Hi. unfold pats_of. destruct (lookup (sc_patterns cfg) ty) as [ps|] eqn:L; [|reflexivity].
+    apply lookup_in in L as (k' & Hin). destruct (handler_facts Hch Hs) as [_ H]. rewrite forallb_forall in H.
     specialize (H _ Hin). cbn [snd] in H. rewrite forallb_forall in H.
     destruct (hshape_tail t Ht Hi) as (tl & -> & Htl).
     unfold matches_pats. destruct (existsb _ ps) eqn:E; [|reflexivity].
@@ -252,7 +256,8 @@ Section Main.
     set (D1 := do_for_type_and_all (strop_by_pattern u cfg) p2 tyl true).
     destruct (checked D1 (sc_strop_handler cfg) p2) as [s1| |] eqn:C1; try discriminate.
     destruct (checked _ (sc_strop_handler cfg) s1) as [s2| |] eqn:C2; try discriminate.
-    intros C3.
+    destruct (checked _ (sc_enc_handler cfg) s2) as [s3| |] eqn:C3; try discriminate.
+    intros C4.
     destruct Hp2 as (Hi & Hn & Hh).
     (* step 1 *)
     assert (S1 : St p2 s1 (D1 <> TRuntimeError)).
@@ -266,21 +271,19 @@ Section Main.
         split; [exact S1|eapply dry_kw; exact Hd].
       - split; [eapply handler_und_ident; eassumption|left; split; [left; congruence|eapply handler_und_shape; eassumption]]. }
     (* step 3 *)
-    assert (S3 : St p2 t (D1 <> TRuntimeError /\ str_in p2 R = false)).
+    assert (S3 : St p2 s3 (D1 <> TRuntimeError /\ str_in p2 R = false)).
     { destruct S2 as (Hi2 & S2). apply checked_cases in C3 as [[Hd ->]|[Hh1 Hu]].
       - split; assumption.
       - split; [eapply handler_und_ident; eassumption|left; split; [right; congruence|eapply handler_und_shape; eassumption]]. }
-    clear S1 S2 C1 C2 C3. destruct S3 as (Hit & [[Hs Hsh]|[-> [Hd1 Hr]]]).
-    - (* the result was produced by a failure handler *)
-      split; [|split].
-      + unfold valid_ident. destruct t as [|c0 tl]; [discriminate|]. cbn [hshape] in Hsh.
+    clear S1 S2 C1 C2 C3.
+    (* validity of s3, whichever way it was produced *)
+    assert (Hvalid : valid_ident s3 = true).
+    { destruct S3 as (Hit & [[Hs Hsh]|[-> [Hd1 Hr]]]).
+      - unfold valid_ident. destruct s3 as [|c0 tl]; [discriminate|]. cbn [hshape] in Hsh.
         apply andb_prop in Hsh as [Hc0 _]. apply N.eqb_eq in Hc0; subst c0.
         change (is_digit 95) with false. cbn [negb andb]. exact Hit.
-      + apply hshape_not_reserved; assumption.
-      + unfold matches_reserved_pattern. rewrite !hshape_no_pattern by assumption. reflexivity.
-    - (* the result passed all checks *)
-      pose proof (dry_pat tyl p2 Hty Hd1) as Hp. split; [|split].
-      + unfold valid_ident. destruct p2 as [|c0 tl]; [congruence|]. fold (all_ident (c0 :: tl)). rewrite Hi, andb_true_r.
+      - pose proof (dry_pat tyl p2 Hty Hd1) as Hp.
+        unfold valid_ident. destruct p2 as [|c0 tl]; [congruence|]. fold (all_ident (c0 :: tl)). rewrite Hi, andb_true_r.
         pose proof Hc_digit as Hg. apply orb_prop in Hg as [Hg|Hg]; [exact (Hh Hg)|].
         unfold pats_digit_guard in Hg. apply existsb_exists in Hg as (r & Hrin & Hg).
         apply good_boldigit_mem in Hg as (kk & -> & Hkk).
@@ -290,8 +293,22 @@ Section Main.
         { unfold re_matches, re_match. rewrite bolcls_mt, (Hkk c0 Hd0). reflexivity. }
         assert (Hx : existsb (fun r => re_matches u r (c0 :: tl)) (pats_of cfg ty_all) = true)
           by (apply existsb_exists; eauto).
-        congruence.
-      + exact Hr.
-      + exact Hp.
+        congruence. }
+    destruct (sc_reverify cfg) eqn:Hrv.
+    - (* the tree re-verifies what it returns: the result passed the dry-run checks itself *)
+      unfold reverified in C4.
+      destruct (dry_ok (do_for_type_and_all (strop_by_pattern u cfg) s3 tyl true)) eqn:E1; [|discriminate].
+      destruct (dry_ok (do_for_type_and_all (strop_by_keyword cfg) s3 tyl true)) eqn:E2; [|discriminate].
+      destruct (dry_ok (do_for_type_and_all (encode u sp cfg) s3 tyl true)) eqn:E3; [|discriminate].
+      cbn [andb] in C4. injection C4 as <-.
+      split; [exact Hvalid|split].
+      + apply (dry_kw tyl). intros E; rewrite E in E2; discriminate.
+      + apply (dry_pat tyl s3 Hty). intros E; rewrite E in E1; discriminate.
+    - injection C4 as <-. pose proof Hc_handler as Hch. rewrite Hrv in Hch. cbn [orb] in Hch.
+      destruct S3 as (Hit & [[Hs Hsh]|[-> [Hd1 Hr]]]).
+      + split; [exact Hvalid|split].
+        * apply hshape_not_reserved; assumption.
+        * unfold matches_reserved_pattern. rewrite !hshape_no_pattern by assumption. reflexivity.
+      + split; [exact Hvalid|split; [exact Hr|exact (dry_pat tyl p2 Hty Hd1)]].
   Qed.
 End Main.
